@@ -96,6 +96,18 @@ func genWorld(rt *rapid.T, o worldOpts) World {
 		}
 	}
 	w.Ops = genOps(rt, o.maxOps, o.weights, o.faults, o.interference)
+	needsRepair := false
+	for _, pp := range w.Pods {
+		if pp.NoIdentity && !pp.Orphan && pp.Phase == 3 && !pp.Term {
+			needsRepair = true
+		}
+	}
+	if needsRepair && o.faults && rapid.Bool().Draw(rt, "repairFault") {
+		// a pod needs its identity repaired in place and that very update is refused or fails: the first reconciles
+		// meet it head-on (a rejected repair is no reason to do anything else to the pod)
+		first := Op{K: OpReconcile, FaultAt: -6, Fault: rapid.SampledFrom([]int{FInvalid, FInvalid, FForbidden, FServerError, FConflict, FNotFound}).Draw(rt, "repairFaultKind")}
+		w.Ops = append([]Op{first, {K: OpReconcile}}, w.Ops...)
+	}
 	if held && o.faults && rapid.Bool().Draw(rt, "heldCreateFault") {
 		// the held rollout meets a failing pod create (or delete) right away: the reconcile that replaces the
 		// finished pod below the partition is the one whose partial work must not be taken for a completed rollout
